@@ -759,7 +759,9 @@ fn update_contiguous_length(
     let end = bitfield_update.start + bitfield_update.length;
     let mut c = header.hints.contiguous_length;
     if bitfield_update.drop {
-        if c <= end && c > bitfield_update.start {
+        // Dropping anything below the contiguous length downgrades it to the start of
+        // the dropped range (as the live clear path does).
+        if c > bitfield_update.start {
             c = bitfield_update.start;
         }
     } else if c <= end && c >= bitfield_update.start {
